@@ -1351,7 +1351,12 @@ class Store:
         flow_updates.extend(flow_paths)
 
         self._apply_subschema_path(path)
-        self.get_path(path).apply_defaults()
+        target = self.get_path(path)
+        target.apply_defaults()
+        # Variables the inserted node owes to this store's sub-schema
+        # exist only now: give them their initial state too (as
+        # Store.divide does).
+        target.set_value(insertion['initial_state'])
 
         return process_updates, step_updates, flow_updates, topology_updates
 
